@@ -225,11 +225,15 @@ fn new_line_state(
         _ => delta_unreachable(""),
     };
 
+    // The raw line loses what the line itself will lose: the prefix of the new state.
+    let n_parents = prefix
+        .as_ref()
+        .map_or_else(|| diff_type.n_parents(), |prefix| prefix.len());
     let maybe_minus_raw_line = || {
         maybe_raw_line(
             new_raw_line,
             config.minus_style.is_raw,
-            diff_type.n_parents(),
+            n_parents,
             &[*style::GIT_DEFAULT_MINUS_STYLE, config.git_minus_style],
             config,
         )
@@ -238,7 +242,7 @@ fn new_line_state(
         maybe_raw_line(
             new_raw_line,
             config.zero_style.is_raw,
-            diff_type.n_parents(),
+            n_parents,
             &[],
             config,
         )
@@ -247,7 +251,7 @@ fn new_line_state(
         maybe_raw_line(
             new_raw_line,
             config.plus_style.is_raw,
-            diff_type.n_parents(),
+            n_parents,
             &[*style::GIT_DEFAULT_PLUS_STYLE, config.git_plus_style],
             config,
         )
